@@ -359,8 +359,9 @@ fn part_b2(rep: &mut Report, tier: Tier) {
             let Some(src) = src else { continue };
             any = true;
             let program = Arc::new(compile(&src).expect("compiles"));
+            // reference: a FRESHLY COMPILED program on a fresh thread (state kept inside a compiled node must not leak in)
             let fresh = |e: &Value| -> Option<(Outcome, Value, Value)> {
-                let p = program.clone();
+                let p = compile(&src)?;
                 let e = e.clone();
                 std::thread::spawn(move || guarded(|| {
                     let mut rt = Runtime::default();
@@ -487,6 +488,119 @@ fn part_b2(rep: &mut Report, tier: Tier) {
             }
         }
     }
+    // (B4) NON-CONSTANT arguments: one parameter at a time is chosen at run time (by `.sel`) among the literals of
+    // its alphabet, so that per-call-site caches keyed on "the" pattern / format / option are exercised with
+    // several values over ONE compiled program; the others are literals. Reference: a freshly compiled program.
+    let mut b4_programs = 0u64;
+    let mut b4_pairs = 0u64;
+    fn tame_text(t: &str) -> bool {
+        fn tame(v: &Value) -> bool {
+            match v {
+                Value::Integer(i) => i.unsigned_abs() <= 10_000,
+                Value::Float(f) => f.is_finite() && f.abs() <= 1e9,
+                Value::Array(a) => a.iter().all(tame),
+                Value::Object(o) => o.values().all(tame),
+                _ => true,
+            }
+        }
+        crate::props::sweep::eval_literal(t).is_none_or(|v| tame(&v))
+    }
+    for spec in &specs {
+        if sweep::NONDETERMINISTIC.contains(&spec.name.as_str()) || spec.name == "validate_json_schema" || spec.closure.is_some() {
+            continue;
+        }
+        let req: Vec<usize> = (0..spec.params.len()).filter(|i| spec.params[*i].2).collect();
+        for j in 0..spec.params.len() {
+            let (kw, kind, required, alphabet) = &spec.params[j];
+            let mut alts: Vec<String> = alphabet.iter().filter(|t| tame_text(t)).take(if tier.thorough() { 6 } else { 3 }).cloned().collect();
+            if kind & sweep::REGEX_KIND != 0 {
+                // two patterns with the same number of groups but different names, both matching digits
+                alts.push("r'(?P<n>\\d+)'".into());
+                alts.push("r'(?P<m>\\w+)'".into());
+            }
+            alts.dedup();
+            if alts.len() < 2 {
+                continue;
+            }
+            for base in 0..(if tier.thorough() { 3 } else { 2 }) {
+                let mut args: Vec<String> = Vec::new();
+                let mut ok = true;
+                for i in &req {
+                    if *i == j {
+                        args.push("p".into());
+                        continue;
+                    }
+                    let al: Vec<&String> = spec.params[*i].3.iter().filter(|t| tame_text(t)).collect();
+                    if al.is_empty() {
+                        ok = false;
+                        break;
+                    }
+                    args.push(al[base.min(al.len() - 1)].clone());
+                }
+                if !ok {
+                    continue;
+                }
+                if !*required {
+                    args.push(format!("{kw}: p"));
+                }
+                let mut chain = String::new();
+                for (n, a) in alts.iter().enumerate() {
+                    if n + 1 == alts.len() {
+                        chain.push_str(&format!("{{ {a} }}"));
+                    } else {
+                        chain.push_str(&format!("if .sel == {n} {{ {a} }} else "));
+                    }
+                }
+                let call = format!("{}({})", spec.name, args.join(", "));
+                let bang = call.replacen('(', "!(", 1);
+                let src = [format!("p = {chain}\n.r, .err = {call}"), format!("p = {chain}\n.r = {call}"), format!("p = {chain}\n.r = {bang}")].into_iter().find(|s| compile(s).is_some());
+                let Some(src) = src else { continue };
+                b4_programs += 1;
+                let events: Vec<Value> = (0..alts.len()).map(|n| vv::obj(&[("sel", vv::i(n as i64))])).collect();
+                let refs: Vec<Option<(Outcome, Value, Value)>> = events
+                    .iter()
+                    .map(|e| {
+                        let p = compile(&src)?;
+                        let e = e.clone();
+                        std::thread::spawn(move || guarded(|| {
+                            let mut rt = Runtime::default();
+                            run_on(&mut rt, &p, &e)
+                        }).ok()).join().ok().flatten()
+                    })
+                    .collect();
+                let program = Arc::new(compile(&src).expect("compiles"));
+                for (hi, h) in events.iter().enumerate() {
+                    for (ei, e) in events.iter().enumerate() {
+                        if hi == ei {
+                            continue;
+                        }
+                        let Some(want) = &refs[ei] else { continue };
+                        b4_pairs += 1;
+                        let p = program.clone();
+                        let (h2, e2) = (h.clone(), e.clone());
+                        let got = std::thread::spawn(move || guarded(|| {
+                            let mut rt = Runtime::default();
+                            let _ = run_on(&mut rt, &p, &h2);
+                            rt.clear();
+                            run_on(&mut rt, &p, &e2)
+                        }).ok()).join().ok().flatten();
+                        let Some(got) = got else { continue };
+                        if !same(want, &got) {
+                            rep.violation(Violation::new(
+                                "C14.shared-program-depends-on-history",
+                                json!({"part": "stdlib-history", "program": src, "history_event": vv::enc(h), "event": vv::enc(e)}),
+                                show3(want),
+                                show3(&got),
+                            ));
+                        }
+                    }
+                }
+            }
+        }
+    }
+    pairs += b4_pairs;
+    rep.set("B4_programs_with_a_run_time_selected_argument", b4_programs);
+    rep.set("B4_ordered_history_pairs", b4_pairs);
     rep.set("B3_example_call_shapes_with_histories", shapes_run);
     let _ = differing_refs;
     rep.add("evaluations", pairs);
